@@ -102,6 +102,10 @@ class Ctx:
             self._log.update(repr(v).encode())
             self._log.update(b'|')
 
+    def tag(self, *values):
+        """Shape information of the run (enters the distinct-shape digest, not the trace)."""
+        self.kinds.extend(str(v) for v in values)
+
     def fault(self, kind, n=1):
         self.counters['fault:' + kind] += n
         self.nontrivial = True
